@@ -274,6 +274,42 @@ def ambiguous_repetitions(pattern):
     return bad
 
 
+def overlapping_repetitions(pattern, flags=re.UNICODE | re.VERBOSE):
+    """Unbounded repetitions B* / B+ whose body overlaps itself: some word
+    of L(B) is also the concatenation of two non-empty words of L(B) - the
+    same text is then one iteration or two, and a failing match tries every
+    split (the (x+)* shape: exponential backtracking). Returns
+    (descriptions, undecided) ."""
+    tree = sre_parse.parse(pattern, flags)
+    bad, unknown = [], []
+
+    def walk(items):
+        for op, av in items:
+            n = str(op)
+            if n in ('MAX_REPEAT', 'MIN_REPEAT'):
+                lo, hi, sub = av
+                if hi == sre_c.MAXREPEAT:
+                    body = _seq(list(sub))
+                    ne = z3.Intersect(body, z3.Concat(
+                        ANYCHAR, z3.Star(ANYCHAR)))
+                    st, w = decide_empty(z3.Intersect(
+                        z3.Concat(ne, ne), ne))
+                    if st == 'failed':
+                        bad.append('the body of an unbounded repetition '
+                                   'matches %r both as one iteration and '
+                                   'as two' % (w,))
+                    elif st == 'unknown':
+                        unknown.append('undecided for one repetition')
+                walk(list(sub))
+            elif n == 'SUBPATTERN':
+                walk(list(av[-1]))
+            elif n == 'BRANCH':
+                for a in av[1]:
+                    walk(list(a))
+    walk(list(tree))
+    return bad, unknown
+
+
 def _prefix1(r):
     """{ first character of w | w in L(r), w non-empty } as a regex over
     single characters: c such that c.Sigma* intersects L(r)."""
